@@ -19,8 +19,9 @@ func init() {
 			"(R2) the result is written before done is closed and every read outside the completing function is dominated by a receive on done; (R3) the closer deregisters exactly the agent ref that was registered, and registration precedes the request's enqueue; " +
 			"(R4) a completion source armed before the registration is compensated by a completion re-check after it that deregisters; (R5) the kill routine completes the dying actor's pending asks with the actor-dead error on every path; " +
 			"(R6) the reply address contains a fresh UUID and is the sender of the request envelope and the registry key; (R7) forwarders/timer under the future's mutex, the agent table under its lock (no escape of the inner map). " +
-			"(R8) a forwarder is appended only after observing 'not completed' while holding the mutex under which the completing function takes the forwarder list, in one critical section. (R5, addition) the per-asker bucket of the agent table is dropped as a whole only on an edge asserting it is empty, so no registered ask is hidden from the death sweep. NOT decided: 'no earlier than its timeout' (clock), that Result/Wait return (they block on done; R1 shows done is closed on every completing path); timeout<=0 arms no timer by design.",
+			"(R8) a forwarder is appended only after observing 'not completed' while holding the mutex under which the completing function takes the forwarder list, in one critical section. (R5, addition) the per-asker bucket of the agent table is dropped as a whole only on an edge asserting it is empty, so no registered ask is hidden from the death sweep. (R5, addition) the death sweep's closing loop is never left early, and the dying actor's pending asks are completed before its OnKill handler runs; (R10) no map of the module is keyed by a reference value: references are identified by (address, path), not by pointer. NOT decided: 'no earlier than its timeout' (clock), that Result/Wait return (they block on done; R1 shows done is closed on every completing path); timeout<=0 arms no timer by design.",
 		Rules: []Rule{
+			{ID: "C04.R10", Min: 1, Desc: "references are identified by (address, path), never by pointer identity: no map is keyed by a reference value", Fn: c04RefIdentity},
 			{ID: "C04.R1", Min: 8, Desc: "one-shot completion", Fn: c04OneShot},
 			{ID: "C04.R2", Min: 4, Desc: "safe publication of the result", Fn: c04Publication},
 			{ID: "C04.R3", Min: 2, Desc: "registration pairing and order", Fn: c04Registration},
@@ -631,6 +632,22 @@ func c04AskerDeath(p *Program, r *Report) {
 			ok = false
 		}
 	}
+	// ... and before the dying actor's own OnKill handler runs: a handler that waits on one of its earlier asks gets the
+	// "actor dead" completion instead of blocking its own termination (and with it the stop of the whole system)
+	if lc.ExecRecover != nil {
+		runs := nodesWhere(g, func(in ssa.Instruction) bool { c := callOf(in); return c != nil && c.StaticCallee() == lc.ExecRecover })
+		okOrder := true
+		for rn := range runs {
+			if !g.DominatedByNodes(rn, calls) {
+				// a run on a path on which the asks are not completed at all (restart in progress) is not constrained
+				if !anyIn(g.Reach(g.entry(), calls, av), setKeys(map[int]bool{rn: true})) {
+					continue
+				}
+				okOrder = false
+			}
+		}
+		r.Check(okOrder && len(calls) > 0, "pending asks are completed before the OnKill handler runs", firstPos(g, calls), "every run of the user's behaviour in the kill routine is dominated by the completion of the dying actor's pending asks")
+	}
 	r.Check(ok, "kill routine completes the dying actor's pending asks", firstPos(g, calls), "on every terminating path the kill routine closes the futures registered for its own path with ErrorActorDeaded ("+desc+")")
 	// the routine closes every future found for that path
 	rg := p.ig(f.RemoveBy)
@@ -693,6 +710,33 @@ func c04AskerDeath(p *Program, r *Report) {
 	}
 	if nd == 0 {
 		r.Unresolved("no whole-bucket delete of the agent table")
+	}
+	// the sweep visits every ask of its snapshot: the loop that closes them is never left early (an entry that has completed
+	// on its own in the meantime is skipped, it does not end the sweep)
+	for i, in := range rg.Nodes {
+		c := callOf(in)
+		if c == nil || c.StaticCallee() == nil || c.StaticCallee().Name() != "Close" {
+			continue
+		}
+		// the loop test: a branch that dominates the Close through one edge and is reachable again from it
+		var body *edge
+		for _, ifi := range rg.ifs() {
+			for _, outcome := range []bool{true, false} {
+				e := rg.branchEdge(ifi, outcome)
+				if e.to >= 0 && rg.DominatedByEdges(i, map[edge]bool{e: true}) && rg.ReachAfter(i, nil, nil)[e.from] {
+					if body == nil || e.from < body.from {
+						ee := e
+						body = &ee
+					}
+				}
+			}
+		}
+		if body == nil {
+			r.Undecided("sweep loop", in.Pos(), "the Close of the pending asks is not inside a recognisable loop")
+			continue
+		}
+		early := anyIn(rg.Reach([]int{body.to}, setOf(body.from), nil), rg.Exits)
+		r.Check(!early, "the death sweep is never left early", in.Pos(), "from the loop body no path reaches the function's exit without going through the loop test again: every ask of the snapshot is visited")
 	}
 	r.Check(exact && uses > 0, "only the dying actor's asks are completed", badPos, fmt.Sprintf("all %d uses of the agent table in the bulk-completion routine are lookups with the routine's own path parameter: asks of other (living) actors are never swept", uses))
 }
@@ -934,4 +978,49 @@ func c04ForwarderRace(p *Program, r *Report) {
 	if n == 0 {
 		r.Unresolved("no forwarder registration found")
 	}
+}
+
+func setKeys(m map[int]bool) []int {
+	var out []int
+	for k := range m {
+		out = append(out, k)
+	}
+	return out
+}
+
+// c04RefIdentity: an ActorRef is a value that is cloned, parsed from strings and rebuilt from the wire; two references are
+// the same when address and path agree (Equals). Anything that collects or de-duplicates references must key them by that
+// pair. A map keyed by the reference value itself compares pointers: the forwarder list of a future would keep the same
+// actor twice (it then receives the result twice), a set of targets would tell one actor twice.
+func c04RefIdentity(p *Program, r *Report) {
+	refI := p.Iface("", "ActorRef")
+	if refI == nil {
+		r.Unresolved("ActorRef interface")
+		return
+	}
+	n, bad := 0, 0
+	for _, fn := range p.Mod {
+		for _, b := range fn.Blocks {
+			for _, in := range b.Instrs {
+				mm, ok := in.(*ssa.MakeMap)
+				if !ok {
+					continue
+				}
+				n++
+				kt := mm.Type().Underlying().(*types.Map).Key()
+				isRef := false
+				if it, isI := kt.Underlying().(*types.Interface); isI && it.NumMethods() > 0 && types.Implements(kt, refI) {
+					isRef = true
+				}
+				if pt, isP := kt.(*types.Pointer); isP && types.Implements(pt, refI) {
+					isRef = true
+				}
+				if isRef {
+					bad++
+					r.Violate("map keyed by a reference in "+fnName(fn), mm.Pos(), "the key type "+typeName(kt)+" compares references by pointer identity; equal references obtained in different ways (Clone, ParseRef, decoded from the wire) are distinct keys")
+				}
+			}
+		}
+	}
+	r.Check(bad == 0, "no map of the module is keyed by a reference value", 0, "examined "+itoa(n)+" map constructions: collections of references key them by address and path")
 }
